@@ -336,6 +336,19 @@ pub fn c14(d: &Digest, s: usize, out: &mut Vec<Violation>) {
         // completeness: drained to None after a clean stop, never dropped before
         let drained = d.calls.iter().any(|x| matches!(x.op, OpK::Drain { it: i } if i == it) && x.ret.is_some() && x.res == Some(Res::Unit));
         if drained && first_none.is_some() {
+            // ... judged against the model as well (the reference subscriber could be missing the
+            // same notifications): every action whose reducers all answered Dispatch and which no
+            // middleware suppressed, dispatched after the iterator was created
+            for inst in &sd.insts {
+                if d.notify_exp(inst) != NotifyExp::Must {
+                    continue;
+                }
+                let after_creation = d.dispatch_call_of(s, inst.act).map(|dc| dc.inv > iret).unwrap_or(false);
+                if after_creation && !got.iter().any(|g| g.2 == inst.act) {
+                    v(out, "C14", "missed", format!("store {s}: iterator {it} never yielded action {} (reduced with Dispatch) dispatched after it was created", inst.act));
+                    break;
+                }
+            }
             for y in &r {
                 let after_creation = d.dispatch_call_of(s, y.0).map(|dc| dc.inv > iret).unwrap_or(false);
                 if after_creation && !got.iter().any(|g| g.2 == y.0) {
